@@ -16,13 +16,18 @@ def _add(kr, role, what, wit, replay):
     if any(f.role == role for f in kr.findings): return
     kr.findings.append(Finding(role, what, wit, replay=REPLAYS[replay[0]](*replay[1]) if replay else None))
 
-def _decode_contract(M, decoder, enc, method):
+def _decode_contract(M, decoder, enc, method, part=False):
     """encoding_rs by contract.  A file is (stored encoding, text T with at least one non-ASCII character).
     `decode`: BOM sniffing first (UTF-8 / UTF-16LE / UTF-16BE BOM selects that encoding whatever `self` is), else decode as `self`.
     `decode_with_bom_removal`: only the BOM of `self` is removed, no sniffing.  `decode_without_bom_handling`: no BOM handling.
     UTF-8 decoding of bytes that are not UTF-8 reports had_errors; WINDOWS-1252 decoding never reports errors.
     returns (text tag, had_errors)"""
     has_bom = {'utf8-bom': 'UTF_8', 'utf16le-bom': 'UTF_16LE', 'utf16be-bom': 'UTF_16BE'}.get(enc)
+    if part:
+        # a proper part of the file (a prefix, a chunk): it may end inside a multi-byte character, and it may lack the non-ASCII characters of the whole;
+        # so whether a UTF-8 / UTF-16 decoder reports errors on it is not determined by the file's encoding (fresh boolean); WINDOWS-1252 never reports errors
+        if decoder in ('WINDOWS_1252', 'LATIN1') and not (method == 'decode' and has_bom): return 'part of T', False
+        return 'part of T', M.fresh_bool('part_had_errors')
     if method == 'decode' and has_bom: return 'T', False
     if method == 'decode_with_bom_removal' and has_bom == decoder: return 'T', False
     if decoder == 'UTF_8':
@@ -43,14 +48,33 @@ def k1(ctx, kr):
     key = P.find_fn('ironplcc', 'source::path_to_source')
     st = {}
     def st_read(M, fr, callee, a):
-        if M.branch(st['read_ok']): return ok(VecV([Opaque('bytes')]))
+        if M.branch(st['read_ok']): return ok(Agg('FileBytes', ['whole']))
         return err(Opaque('io::Error'))
+    def file_bytes(M, v):
+        while isinstance(v, Ref): v = M.deref(v)
+        return v if isinstance(v, Agg) and v.name == 'FileBytes' else None
+    def st_len(M, fr, callee, a):
+        fb = file_bytes(M, a[0])
+        if fb is None: return NotImplemented
+        st.setdefault('len', {}); k = fb.f[0]
+        if k not in st['len']: st['len'][k] = M.fresh_bv('len_' + k, 64)
+        return st['len'][k] if callee.endswith('len') else (st['len'][k] == 0)
+    def st_slice(M, fr, callee, a):
+        fb = file_bytes(M, a[0])
+        if fb is None: return NotImplemented
+        r = Ref(Cell(Agg('FileBytes', ['part'])))
+        return some(r) if re.search(r'::(get|first_chunk|split_first_chunk)$', callee) else r
+    def st_same(M, fr, callee, a):
+        fb = file_bytes(M, a[0])
+        if fb is None: return NotImplemented
+        return a[0] if isinstance(a[0], Ref) else Ref(Cell(fb))
     def st_decode(M, fr, callee, a):
         dec = M.deref(a[0])
         if not (isinstance(dec, Agg) and dec.name.startswith('static:encoding_rs::')): raise Unsupported('decoder value %r' % (dec,))
         method = re.search(r'Encoding::(\w+)$', callee).group(1)
-        text, bad = _decode_contract(M, dec.name.split('::')[-1], st['enc'], method)
-        st['used'].append((dec.name.split('::')[-1], method))
+        fb = file_bytes(M, a[1]); part = fb is not None and fb.f[0] == 'part'
+        text, bad = _decode_contract(M, dec.name.split('::')[-1], st['enc'], method, part)
+        st['used'].append((dec.name.split('::')[-1], method + (' (on a part of the file)' if part else '')))
         if method == 'decode': return Agg('()', [Str(text), a[0], bad])
         if method == 'decode_with_bom_removal': return Agg('()', [Str(text), bad])
         if method == 'decode_without_bom_handling': return Agg('()', [Str(text), bad])
@@ -66,7 +90,9 @@ def k1(ctx, kr):
         # encoding_rs::mem::decode_latin1: every byte is the code point of the same value (ISO-8859-1), no errors, no BOM handling
         text, _ = _decode_contract(M, 'LATIN1', st['enc'], 'decode_without_bom_handling'); st['used'].append(('LATIN1', 'mem::decode_latin1'))
         return Str(text)
-    M = Machine(P, stubs={r'^std::fs::read(::<.*>)?$': st_read, r'^std::string::String::from_utf8$|^std::str::from_utf8$|^core::str::from_utf8$': st_from_utf8,
+    M = Machine(P, stubs={r'^std::fs::read(::<.*>)?$': st_read, r'^std::vec::Vec::<u8>::(len|is_empty)$|^std::vec::Vec::<.*>::(len|is_empty)$|^core::slice::<impl \[.*\]>::(len|is_empty)$': st_len,
+                          r'^<std::vec::Vec<u8> as std::ops::Index<std::ops::Range\w*<usize>>>::index$|^<\[u8\] as std::ops::Index<std::ops::Range\w*<usize>>>::index$|^core::slice::<impl \[.*\]>::(get|first_chunk|split_first_chunk)$|^core::slice::index::<impl std::ops::Index<.*> for \[.*\]>::index$': st_slice,
+                          r'^<std::vec::Vec<u8> as std::ops::Deref>::deref$|^std::vec::Vec::<.*>::as_slice$|^<std::vec::Vec<.*> as std::convert::AsRef<\[.*\]>>::as_ref$': st_same, r'^std::string::String::from_utf8$|^std::str::from_utf8$|^core::str::from_utf8$': st_from_utf8,
                           r'^std::string::FromUtf8Error::into_bytes$': st_into_bytes, r'^encoding_rs::mem::decode_latin1$': st_latin1, r"^std::borrow::Cow::<'_, str>::into_owned$|^std::borrow::Cow::into_owned$|^<std::borrow::Cow<'_, str> as std::string::ToString>::to_string$": lambda M_, fr, c, a: (M_.deref(a[0]) if isinstance(a[0], Ref) else a[0]), r'^std::string::String::from_utf8_lossy$': lambda M_, fr, c, a: (_ for _ in ()).throw(Unsupported('from_utf8_lossy over an abstract file')), r'^encoding_rs::Encoding::decode': st_decode, r'^encoding_rs::Encoding::name$': lambda M_, fr, c, a: Ref(Cell(Str('enc'))),
                           r'^source::diagnostic$': lambda M_, fr, c, a: Agg('Diagnostic', [Str('problem:%d' % M_.deref(a[0]).disc if isinstance(M_.deref(a[0]), EnumV) else 'problem')]),
                           r'^<std::io::Error as std::string::ToString>::to_string$': lambda M_, fr, c, a: Str('io error')})
@@ -115,7 +141,28 @@ def _replay_encoding(enc):
         t0 = ctx.ironplcc(['tokenize'], {'f.st': text.encode('utf-8')}); t1 = ctx.ironplcc(['tokenize'], {'f.st': data})
         strip = lambda out: re.sub(r'\x1b\[[0-9;]*m', '', out[1])
         bad = key(rc, err_) != key(rc0, err0) or (t0[0], strip(t0)) != (t1[0], strip(t1))
-        return bad, {'encoding': enc, 'utf8_result': key(rc0, err0), 'this_result': key(rc, err_), 'tokenize_same': (t0[0], strip(t0)) == (t1[0], strip(t1))}
+        det = {'encoding': enc, 'utf8_result': key(rc0, err0), 'this_result': key(rc, err_), 'tokenize_same': (t0[0], strip(t0)) == (t1[0], strip(t1))}
+        if bad: return bad, det
+        # large files: the first non-ASCII character lies behind / across a power-of-two boundary of the stored bytes (a slip that looks only at a part of the file shows here)
+        import codecs
+        enc_py = {'windows1252-c1': 'cp1252', 'windows1252': 'cp1252', 'utf8': 'utf-8', 'utf8-bom': 'utf-8', 'utf16le-bom': 'utf-16-le', 'utf16be-bom': 'utf-16-be'}.get(enc)
+        bom = {'utf8-bom': b'\xef\xbb\xbf', 'utf16le-bom': b'\xff\xfe', 'utf16be-bom': b'\xfe\xff'}.get(enc, b'')
+        special = '€' if enc == 'windows1252-c1' else 'é'
+        for B in (1024, 4096, 8192, 16384, 65536):
+            for delta in (-1, 0, 40):
+                head = 'PROGRAM p\nVAR\n  x : INT;\nEND_VAR\n'
+                # pad with an ASCII comment so that the special character starts at stored byte B + delta
+                unit = 2 if enc_py.startswith('utf-16') else 1
+                target = (B + delta - len(bom)) // unit
+                pad = target - len(head) - 3
+                if pad < 1: continue
+                big = head + '(* ' + 'a' * (pad - 0) + special + ' *) @\n  y := 1;\nEND_PROGRAM\n'
+                big = big[:len(head) + 3] + big[len(head) + 3:]
+                data_b = bom + big.encode(enc_py)
+                r0 = ctx.ironplcc(['check'], {'f.st': big.encode('utf-8')}); r1 = ctx.ironplcc(['check'], {'f.st': data_b})
+                if key(r0[0], r0[2]) != key(r1[0], r1[2]):
+                    return True, {'encoding': enc, 'file_bytes': len(data_b), 'first_non_ascii_at_byte': data_b.find(special.encode(enc_py)), 'utf8_result': key(r0[0], r0[2]), 'this_result': key(r1[0], r1[2])}
+        return False, det
     return rp
 
 
